@@ -1127,10 +1127,20 @@ func (t *State) procTodoBlkForWalk(todoBlocks []*pb.InternalBlock) (err error) {
 		batch := t.ldb.NewBatch()
 
 		// 执行区块里面的交易
+		utxoKeysInBlock := map[string]bool{} // block里面所有的交易需要用掉的utxo
 		idx, length := 0, len(todoBlk.Transactions)
 		for idx < length {
 			tx = todoBlk.Transactions[idx]
 			showTxId = hex.EncodeToString(tx.Txid)
+			// 检查块内的utxo双花情况, 前面交易用掉的utxo在batch落盘前还留在utxo表里
+			for _, txInput := range tx.TxInputs {
+				utxoKey := utxo.GenUtxoKey(txInput.FromAddr, txInput.RefTxid, txInput.RefOffset)
+				if utxoKeysInBlock[utxoKey] {
+					t.log.Warn("found duplicated utxo in same block", "utxoKey", utxoKey, "txid", showTxId)
+					return ErrUTXODuplicated
+				}
+				utxoKeysInBlock[utxoKey] = true
+			}
 			t.log.Debug("procTodoBlkForWalk", "txid", showTxId, "autogen", t.verifyAutogenTxValid(tx), "coinbase", tx.Coinbase)
 			// 校验定时交易合法性
 			if t.verifyAutogenTxValid(tx) && !tx.Coinbase {
